@@ -457,6 +457,10 @@ VARIANTS = [
     Variant("unmatched-cols", LQF, "                x for x in range(len(current_instances)) if x not in row_inds", "                x for x in range(len(current_instances)) if x not in set(col_inds)", "C09-unmatched"),
     Variant("bp-unmatched-set", FWF, "            new_current_instances_inds = [\n                x for x in range(len(current_instances.features)) if x not in row_inds\n            ]",
             "            matched = set(row_inds)\n            new_current_instances_inds = [\n                x for x in range(len(current_instances.features)) if x not in matched\n            ]", None),
+    Variant("match-used-sets-and", UTF, '    # Sort edges by ascending cost.\n    rows, cols = np.unravel_index(np.argsort(cost_matrix, axis=None), cost_matrix.shape)\n    unassigned_edges = list(zip(rows, cols))\n\n    # Greedily assign edges.\n    row_inds, col_inds = [], []\n    while len(unassigned_edges) > 0:\n        # Assign the lowest cost edge.\n        row_ind, col_ind = unassigned_edges.pop(0)\n        row_inds.append(row_ind)\n        col_inds.append(col_ind)\n\n        # Remove all other edges that contain either node (in reverse order).\n        for i in range(len(unassigned_edges) - 1, -1, -1):\n            if unassigned_edges[i][0] == row_ind or unassigned_edges[i][1] == col_ind:\n                del unassigned_edges[i]\n', '    used_rows, used_cols = set(), set()\n    row_inds, col_inds = [], []\n    rows, cols = np.unravel_index(np.argsort(cost_matrix, axis=None), cost_matrix.shape)\n    for row_ind, col_ind in zip(rows, cols):\n        if row_ind in used_rows and col_ind in used_cols:\n            continue\n        row_inds.append(row_ind)\n        col_inds.append(col_ind)\n        used_rows.add(row_ind)\n        used_cols.add(col_ind)\n', "C09-match"),
+    Variant("match-filter-or", UTF, '    # Sort edges by ascending cost.\n    rows, cols = np.unravel_index(np.argsort(cost_matrix, axis=None), cost_matrix.shape)\n    unassigned_edges = list(zip(rows, cols))\n\n    # Greedily assign edges.\n    row_inds, col_inds = [], []\n    while len(unassigned_edges) > 0:\n        # Assign the lowest cost edge.\n        row_ind, col_ind = unassigned_edges.pop(0)\n        row_inds.append(row_ind)\n        col_inds.append(col_ind)\n\n        # Remove all other edges that contain either node (in reverse order).\n        for i in range(len(unassigned_edges) - 1, -1, -1):\n            if unassigned_edges[i][0] == row_ind or unassigned_edges[i][1] == col_ind:\n                del unassigned_edges[i]\n', '    rows, cols = np.unravel_index(np.argsort(cost_matrix, axis=None), cost_matrix.shape)\n    unassigned_edges = list(zip(rows, cols))\n    row_inds, col_inds = [], []\n    while unassigned_edges:\n        row_ind, col_ind = unassigned_edges.pop(0)\n        row_inds.append(row_ind)\n        col_inds.append(col_ind)\n        unassigned_edges = [(row, col) for row, col in unassigned_edges if row != row_ind or col != col_ind]\n', "C09-match"),
+    Variant("bp-match-used-sets", UTF, '    # Sort edges by ascending cost.\n    rows, cols = np.unravel_index(np.argsort(cost_matrix, axis=None), cost_matrix.shape)\n    unassigned_edges = list(zip(rows, cols))\n\n    # Greedily assign edges.\n    row_inds, col_inds = [], []\n    while len(unassigned_edges) > 0:\n        # Assign the lowest cost edge.\n        row_ind, col_ind = unassigned_edges.pop(0)\n        row_inds.append(row_ind)\n        col_inds.append(col_ind)\n\n        # Remove all other edges that contain either node (in reverse order).\n        for i in range(len(unassigned_edges) - 1, -1, -1):\n            if unassigned_edges[i][0] == row_ind or unassigned_edges[i][1] == col_ind:\n                del unassigned_edges[i]\n', '    used_rows, used_cols = set(), set()\n    row_inds, col_inds = [], []\n    rows, cols = np.unravel_index(np.argsort(cost_matrix, axis=None), cost_matrix.shape)\n    for row_ind, col_ind in zip(rows, cols):\n        if row_ind in used_rows or col_ind in used_cols:\n            continue\n        row_inds.append(row_ind)\n        col_inds.append(col_ind)\n        used_rows.add(row_ind)\n        used_cols.add(col_ind)\n', None),
+    Variant("bp-match-filter", UTF, '    # Sort edges by ascending cost.\n    rows, cols = np.unravel_index(np.argsort(cost_matrix, axis=None), cost_matrix.shape)\n    unassigned_edges = list(zip(rows, cols))\n\n    # Greedily assign edges.\n    row_inds, col_inds = [], []\n    while len(unassigned_edges) > 0:\n        # Assign the lowest cost edge.\n        row_ind, col_ind = unassigned_edges.pop(0)\n        row_inds.append(row_ind)\n        col_inds.append(col_ind)\n\n        # Remove all other edges that contain either node (in reverse order).\n        for i in range(len(unassigned_edges) - 1, -1, -1):\n            if unassigned_edges[i][0] == row_ind or unassigned_edges[i][1] == col_ind:\n                del unassigned_edges[i]\n', '    rows, cols = np.unravel_index(np.argsort(cost_matrix, axis=None), cost_matrix.shape)\n    unassigned_edges = list(zip(rows, cols))\n    row_inds, col_inds = [], []\n    while unassigned_edges:\n        row_ind, col_ind = unassigned_edges.pop(0)\n        row_inds.append(row_ind)\n        col_inds.append(col_ind)\n        unassigned_edges = [(row, col) for row, col in unassigned_edges if not (row == row_ind or col == col_ind)]\n', None),
     Variant("match-and", UTF, "            if unassigned_edges[i][0] == row_ind or unassigned_edges[i][1] == col_ind:", "            if unassigned_edges[i][0] == row_ind and unassigned_edges[i][1] == col_ind:", "C09-match"),
     Variant("bp-match-mask-guarded", UTF, '    # Sort edges by ascending cost.\n    rows, cols = np.unravel_index(np.argsort(cost_matrix, axis=None), cost_matrix.shape)\n    unassigned_edges = list(zip(rows, cols))\n\n    # Greedily assign edges.\n    row_inds, col_inds = [], []\n    while len(unassigned_edges) > 0:\n        # Assign the lowest cost edge.\n        row_ind, col_ind = unassigned_edges.pop(0)\n        row_inds.append(row_ind)\n        col_inds.append(col_ind)\n\n        # Remove all other edges that contain either node (in reverse order).\n        for i in range(len(unassigned_edges) - 1, -1, -1):\n            if unassigned_edges[i][0] == row_ind or unassigned_edges[i][1] == col_ind:\n                del unassigned_edges[i]\n', '    cost = np.array(cost_matrix, dtype="float64")\n    row_inds, col_inds = [], []\n    for _ in range(min(cost.shape)):\n        row_ind, col_ind = np.unravel_index(np.argmin(cost), cost.shape)\n        if not np.isfinite(cost[row_ind, col_ind]):\n            break\n        row_inds.append(row_ind)\n        col_inds.append(col_ind)\n        cost[row_ind, :] = np.inf\n        cost[:, col_ind] = np.inf\n', None),
     Variant("bp-alloc-len-current", FWF, "            new_track_id = max(self.current_tracks) + 1", "            new_track_id = len(self.current_tracks)", None),
